@@ -237,6 +237,11 @@ def write_cli_config(sc: dict, path: str = "cfg.yaml", *, trace: dict | None = N
     return text
 
 
+# NOTE: inside a simulated process never pass `timeout=` to subprocess.run / Popen.wait: their deadline arithmetic and
+# their back-off sleep read the SIMULATED clock (time.monotonic / time.sleep are seams), so the wait spins through the
+# whole timeout in microseconds. Hangs are bounded by the runner's real-time fork timeout instead.
+
+
 def run_cli(argv: list[str]) -> dict:
     """Run semantiva.cli.main(argv) in-process; returns exit code, stdout, stderr."""
     import contextlib
